@@ -79,6 +79,15 @@ c34_op(ground, _, _, T, _, V) :- ( ground(T) -> V = true ; V = false ).
 c34_op(tvars, Sh, N, _, _, V) :- c34_build(Sh, N, _, T2), term_variables(T2, Vs), length(Vs, V).
 c34_op(acyclic, _, _, T, _, V) :- ( acyclic_term(T) -> V = true ; V = false ).
 c34_op(findall, Sh, _, T, _, V) :- findall(T, true, [T2]), c34_size(Sh, T2, V).
+% twelve copies collected by ONE findall/3: the result is copied back with a single reservation that is
+% many times the size of everything the heap held before
+c34_op(findall12, Sh, _, T, _, V) :-
+    findall(T, c34_member(_, [1,2,3,4,5,6,7,8,9,10,11,12]), Ts), Ts = [T1|_], c34_last(Ts, T12),
+    c34_size(Sh, T1, V), c34_size(Sh, T12, V).
+c34_member(X, [X|_]).
+c34_member(X, [_|T]) :- c34_member(X, T).
+c34_last([X], X) :- !.
+c34_last([_|T], X) :- c34_last(T, X).
 c34_op(assert, Sh, _, T, _, V) :-
     assertz(c34_fact(T)), c34_fact(T2), c34_size(Sh, T2, V), retract(c34_fact(_)).
 c34_op(bb, Sh, _, T, _, V) :- bb_put(c34_key, T), bb_get(c34_key, T2), c34_size(Sh, T2, V).
